@@ -82,13 +82,15 @@ pub fn boot_for(base_seed: u64, index: u64, rng: &mut Rng, roots: &[Model]) -> B
 }
 
 impl Gen {
-    pub fn new(prop: Prop, seed: u64) -> Gen {
+    pub fn new(prop: Prop, seed: u64, long: bool) -> Gen {
         let mut rng = Rng::new(seed);
         let cap = match prop {
             Prop::C04 | Prop::C08 | Prop::C20 => 40,
             Prop::C16 | Prop::C15 | Prop::C09 | Prop::C06 => 60,
             _ => 120,
         };
+        // the thorough tier makes a quarter of its runs three times as long
+        let cap = if long && rng.chance(1, 4) { cap * 3 } else { cap };
         // many short runs, some long ones
         let len = match rng.below(4) {
             0 => 1 + rng.below(6) as usize,
